@@ -406,12 +406,23 @@ func (s *Speller) Class(e *Expr) string {
 	return b.String()
 }
 
+// startsWithI reports whether the spelling of e begins with an identifier that starts with i.
+func startsWithI(e *Expr) bool {
+	switch e.K {
+	case KRef, KLabel:
+		return strings.HasPrefix(e.Name, "i")
+	}
+	return false
+}
+
 // ---------------------------------------------------------------------------------
 // code blocks
 
 var actionBodies = []string{
 	"{ return nil, nil }",
 	"{\n\treturn nil, nil\n}",
+	"{}",
+	"{ }",
 	"{ if true { return 1, nil }; return \"}\", nil }",
 	"{ // } a brace in a comment\n return '{', nil }",
 	"{ /* { */ return nil, nil }",
@@ -472,7 +483,15 @@ func (s *Speller) expr(g *Grammar, e *Expr, min int) {
 	case KSeq:
 		for i, x := range e.Sub {
 			if i > 0 {
-				s.ws(true)
+				// no blank is needed behind a literal or a class: "x"B , [a]i(B) , "x"i"y" - and
+				// `"x"iB` is the literal with the i suffix followed by B (only where the next token
+				// would itself begin with an i is the blank kept behind a terminal without suffix)
+				prev := e.Sub[i-1]
+				if !s.Calm && (prev.K == KLit || prev.K == KClass) && (prev.IC || !startsWithI(x)) && s.u(6, "tight") == 0 {
+					s.feat("no_blank_after_terminal")
+				} else {
+					s.ws(true)
+				}
 			}
 			s.expr(g, x, lvLabel)
 		}
@@ -528,7 +547,7 @@ func (s *Speller) expr(g *Grammar, e *Expr, min int) {
 		if e.Code == "" {
 			e.Code = Pick(s.t, actionBodies, "actionbody")
 			if s.Boot {
-				e.Code = append(actionBodies[:2:2], "{\r\n\treturn nil, nil\r\n}", "{\r\n}")[s.u(4, "bootaction")]
+				e.Code = append(actionBodies[:4:4], "{\r\n\treturn nil, nil\r\n}", "{\r\n}")[s.u(6, "bootaction")]
 			}
 		}
 		s.w(e.Code)
